@@ -100,7 +100,7 @@ def _exhaustive():
 
     d1 = leaves
     d2 = layer(d1, in_union)
-    d3 = layer(d2, [P.T_NONE, A, P.T_INT])
+    d3 = layer(d2, in_union)
     return d1 + d2 + d3
 
 
